@@ -6,13 +6,14 @@
    `cpu` the core count, `sched` the order in which the futures complete. *)
 From Coq Require Import Permutation.
 From TL Require Import Lib.Base Lib.GenTypes Model.OrchParTypes Gen.OrchParGen Model.OrchPar
-     Proofs.OrchParDict Proofs.OrchParMain.
+     Proofs.OrchParDict Proofs.OrchParMain Actual.OrchParActual Proofs.OrchParRegress.
 
 Section C07.
   Variables file evidence : Type.
   Variable perfile : file -> option (list violation).
   Variable collect : file -> evidence.
   Variable report : list evidence -> list violation.
+  Variable parent_sees : file -> bool.   (* the parent's evidence loop lets the file through its exclusion / ignore test *)
   (* domain: rules report Violation objects; without evidence there is no cross-file finding *)
   Hypothesis perfile_wf : forall f vs, perfile f = Some vs -> forallb wf_violation vs = true.
   Hypothesis report_nil : report [] = [].
@@ -25,70 +26,58 @@ Section C07.
     wf_violation v = true -> roundtrip v = Some v' -> assoc f v' = assoc f v.
   Proof. exact dict_roundtrip_fields. Qed.
 
-  (* 2. MAIN (full statement): for every quirk vector with the two defects absent, every worker count,
-        core count, completion order and file list, the parallel run yields the multiset of the
-        sequential run, and raises iff it raises *)
+  (* 2. MAIN, for the FAITHFUL model (every quirk vector, no hypothesis on the cross-file flag or the error flag:
+        the repaired source gathers the evidence in the parent and lets configuration errors surface; both facts are
+        read from the generated layer): for every worker count, core count, completion order and file list the
+        parallel run yields the multiset of the sequential run and raises iff it raises - provided the parent's
+        evidence loop visits every file (or is not restricted: see 4 for the residual defect) *)
   Theorem C07_parallel_equals_sequential : forall q mw cpu sched files,
-    q_par_crossfile_lost q = false -> q_worker_swallows_errors q = false ->
+    (parent_restricts q = false \/ forall f, In f files -> parent_sees f = true) ->
     Permutation sched (seq 0 (List.length files)) ->
-    out_equiv (par_run file evidence perfile collect report q mw cpu sched files)
+    out_equiv (par_run file evidence perfile collect report parent_sees q mw cpu sched files)
               (seq_run file evidence perfile collect report files).
-  Proof. exact (par_equals_seq_flags file evidence perfile collect report perfile_wf report_nil). Qed.
+  Proof. exact (par_equals_seq_faithful file evidence perfile collect report parent_sees perfile_wf report_nil). Qed.
 
-  (* the same with the error flag on, once the worker and the future extraction re-raise what
-     _safe_check_rule re-raises (`swallows q` is computed from the flag and the generated handler tables) *)
+  Theorem C07_parallel_equals_sequential_flag_off : forall q mw cpu sched files,
+    q_parent_evidence_raw_path q = false ->
+    Permutation sched (seq 0 (List.length files)) ->
+    out_equiv (par_run file evidence perfile collect report parent_sees q mw cpu sched files)
+              (seq_run file evidence perfile collect report files).
+  Proof. exact (par_equals_seq_flag_off file evidence perfile collect report parent_sees perfile_wf report_nil). Qed.
+
+  (* the general form the two above are instances of (also covers a source that does not gather evidence / swallows) *)
   Theorem C07_parallel_equals_sequential_gen : forall q mw cpu sched files,
-    q_par_crossfile_lost q = false -> swallows q = false ->
+    crossfile_lost q = false -> swallows q = false ->
+    (parent_restricts q = false \/ forall f, In f files -> parent_sees f = true) ->
     Permutation sched (seq 0 (List.length files)) ->
-    out_equiv (par_run file evidence perfile collect report q mw cpu sched files)
+    out_equiv (par_run file evidence perfile collect report parent_sees q mw cpu sched files)
               (seq_run file evidence perfile collect report files).
-  Proof. exact (par_equals_seq file evidence perfile collect report perfile_wf report_nil). Qed.
+  Proof. exact (par_equals_seq file evidence perfile collect report parent_sees perfile_wf report_nil). Qed.
 
-  (* 3. schedule independence holds for EVERY vector, the one of the current tree included *)
+  (* 3. schedule independence holds for EVERY vector *)
   Theorem C07_schedule_independent : forall q mw cpu s1 s2 files,
     Permutation s1 (seq 0 (List.length files)) -> Permutation s2 (seq 0 (List.length files)) ->
-    out_equiv (par_run file evidence perfile collect report q mw cpu s1 files)
-              (par_run file evidence perfile collect report q mw cpu s2 files).
-  Proof. exact (par_schedule_independent file evidence perfile collect report). Qed.
+    out_equiv (par_run file evidence perfile collect report parent_sees q mw cpu s1 files)
+              (par_run file evidence perfile collect report parent_sees q mw cpu s2 files).
+  Proof. exact (par_schedule_independent file evidence perfile collect report parent_sees). Qed.
 
   Theorem C07_perfile_complete : forall q mw cpu sched files vss,
     Permutation sched (seq 0 (List.length files)) -> mapM perfile files = Some vss ->
-    exists rest, out_equiv (par_run file evidence perfile collect report q mw cpu sched files) (Some (List.concat vss ++ rest)).
-  Proof. exact (par_perfile_complete file evidence perfile collect report perfile_wf). Qed.
+    exists rest, out_equiv (par_run file evidence perfile collect report parent_sees q mw cpu sched files) (Some (List.concat vss ++ rest)).
+  Proof. exact (par_perfile_complete file evidence perfile collect report parent_sees perfile_wf). Qed.
 
-  (* 4. the faithful vector: parallel = sequential exactly when the sequential fallback is taken
-        (fewer than 2 x workers files), or no file raises and there is no cross-file finding *)
-  Theorem C07_actual_equals_sequential_iff : forall q mw cpu sched files,
-    q_par_crossfile_lost q = true -> swallows q = true ->
+  (* 4. the residual defect, characterised exactly: when the evidence loop decides exclusion on another path
+        expression than lint_file, parallel = sequential iff the fallback is taken, or some file raises (both raise),
+        or the report over the visited files is the report over all files *)
+  Theorem C07_restricted_equals_sequential_iff : forall q mw cpu sched files,
+    parent_restricts q = true ->
     Permutation sched (seq 0 (List.length files)) ->
-    (out_equiv (par_run file evidence perfile collect report q mw cpu sched files)
+    (out_equiv (par_run file evidence perfile collect report parent_sees q mw cpu sched files)
                (seq_run file evidence perfile collect report files)
      <-> (List.length files < effective_workers mw cpu * 2
-          \/ (mapM perfile files <> None /\ report (map collect files) = []))).
-  Proof. exact (par_actual_equals_seq_iff file evidence perfile collect report perfile_wf report_nil). Qed.
-
-  Theorem C07_actual_partial : forall q mw cpu sched files,
-    q_par_crossfile_lost q = true -> swallows q = true ->
-    Permutation sched (seq 0 (List.length files)) ->
-    mapM perfile files <> None -> report (map collect files) = [] ->
-    out_equiv (par_run file evidence perfile collect report q mw cpu sched files)
-              (seq_run file evidence perfile collect report files).
-  Proof. exact (par_actual_partial file evidence perfile collect report perfile_wf report_nil). Qed.
-
-  Theorem C07_crossfile_lost_iff : forall q mw cpu sched files vss,
-    q_par_crossfile_lost q = true -> mapM perfile files = Some vss ->
-    Permutation sched (seq 0 (List.length files)) ->
-    (out_equiv (par_run file evidence perfile collect report q mw cpu sched files)
-               (seq_run file evidence perfile collect report files)
-     <-> (List.length files < effective_workers mw cpu * 2 \/ report (map collect files) = [])).
-  Proof. exact (par_crossfile_lost_iff file evidence perfile collect report perfile_wf report_nil). Qed.
-
-  Theorem C07_errors_swallowed : forall q mw cpu sched files,
-    swallows q = true -> mapM perfile files = None ->
-    effective_workers mw cpu * 2 <= List.length files ->
-    seq_run file evidence perfile collect report files = None
-    /\ par_run file evidence perfile collect report q mw cpu sched files <> None.
-  Proof. exact (par_swallows_errors file evidence perfile collect report perfile_wf). Qed.
+          \/ mapM perfile files = None
+          \/ Permutation (report (map collect (filter parent_sees files))) (report (map collect files)))).
+  Proof. exact (par_restricted_equals_seq_iff file evidence perfile collect report parent_sees perfile_wf report_nil). Qed.
 End C07.
 
 (* 5. equal multisets: equal command output (any rule-id filter) and equal exit status *)
@@ -98,6 +87,22 @@ Proof. exact cli_view_equiv. Qed.
 Theorem C07_exit_code_equal : forall cmd a b, out_equiv a b -> exit_code cmd a = exit_code cmd b.
 Proof. exact exit_code_equiv. Qed.
 
+(* 6. regression: the witnesses of the two repaired findings (known.d: "fixed") meet the specification under the
+      faithful vector - four files sharing a block with two workers; an invalid configuration value *)
+Theorem C07_crossfile_regression :
+  par_run nat nat (fun _ => Some []) (fun f => f) w_report all_seen orchpar_actual (Some 2) 16 [3;1;0;2] [0;1;2;3]
+  = seq_run nat nat (fun _ => Some []) (fun f => f) w_report [0;1;2;3]
+  /\ seq_run nat nat (fun _ => Some []) (fun f => f) w_report [0;1;2;3] = Some (map dup [0;1;2;3])
+  /\ crossfile_lost orchpar_actual = false.
+Proof. exact crossfile_regression. Qed.
+
+Theorem C07_errors_regression :
+  par_run nat nat (fun _ => None) (fun f => f) (fun _ => []) all_seen orchpar_actual (Some 1) 16 [1;0] [0;1] = None
+  /\ seq_run nat nat (fun _ => None) (fun f => f) (fun _ => []) [0;1] = None
+  /\ exit_code (FStartsWith "dry.", 1, 0) (par_run nat nat (fun _ => None) (fun f => f) (fun _ => []) all_seen orchpar_actual (Some 1) 16 [1;0] [0;1]) = 2
+  /\ swallows orchpar_actual = false.
+Proof. exact errors_regression. Qed.
+
 (* the worker count actually used, and the literals the statements above rest on *)
 Theorem C07_effective_workers : forall n cpu,
   effective_workers (Some (S n)) cpu = S n /\ effective_workers None cpu = Nat.min default_max_workers cpu.
@@ -106,27 +111,32 @@ Proof. intros n cpu. exact (conj (effective_workers_explicit n cpu) (effective_w
 Print Assumptions C07_dict_roundtrip.
 Print Assumptions C07_dict_roundtrip_fields.
 Print Assumptions C07_parallel_equals_sequential.
+Print Assumptions C07_parallel_equals_sequential_flag_off.
 Print Assumptions C07_parallel_equals_sequential_gen.
 Print Assumptions C07_schedule_independent.
 Print Assumptions C07_perfile_complete.
-Print Assumptions C07_actual_equals_sequential_iff.
-Print Assumptions C07_actual_partial.
-Print Assumptions C07_crossfile_lost_iff.
-Print Assumptions C07_errors_swallowed.
+Print Assumptions C07_restricted_equals_sequential_iff.
 Print Assumptions C07_cli_output_equiv.
 Print Assumptions C07_exit_code_equal.
+Print Assumptions C07_crossfile_regression.
+Print Assumptions C07_errors_regression.
 Print Assumptions C07_effective_workers.
 
-(* non-vacuity: six files, three workers (threshold six), a per-file finding in each file and no
-   cross-file finding: domain hypotheses hold, the worker pool is really used, and the faithful model
-   returns the sequential multiset in the order of the schedule *)
+(* non-vacuity: six files, three workers (threshold six), a per-file finding in each
+   file and a cross-file finding per file: domain hypotheses hold, the worker pool is really used, and the faithful
+   model returns the per-file findings in the order of the schedule followed by the parent's cross-file report *)
 Definition ex_v (n : nat) : violation :=
   [("rule_id", VStr "nesting.excessive-depth"); ("file_path", VStr "a.py"); ("line", VInt false n); ("column", VInt false 0);
    ("message", VStr "m"); ("severity", VEnum "Severity" "ERROR"); ("suggestion", VStr "s")].
+Definition ex_dup (f : nat) : violation :=
+  [("rule_id", VStr "dry.duplicate-code"); ("file_path", VStr "a.py"); ("line", VInt false f); ("column", VInt false 1);
+   ("message", VStr "d"); ("severity", VEnum "Severity" "ERROR"); ("suggestion", VNone)].
 Example C07_nonvacuous :
   forallb wf_violation (map ex_v [0;1;2;3;4;5]) = true
   /\ below_threshold nat (Some 3) 16 [0;1;2;3;4;5] = false
-  /\ par_run nat nat (fun f => Some [ex_v f]) (fun f => f) (fun _ => []) {| q_par_crossfile_lost := true; q_worker_swallows_errors := true |}
-       (Some 3) 16 [5;3;1;0;2;4] [0;1;2;3;4;5] = Some (map ex_v [5;3;1;0;2;4])
-  /\ seq_run nat nat (fun f => Some [ex_v f]) (fun f => f) (fun _ => []) [0;1;2;3;4;5] = Some (map ex_v [0;1;2;3;4;5]).
+  /\ par_run nat nat (fun f => Some [ex_v f]) (fun f => f) (map ex_dup) (fun _ => true)
+       {| q_par_crossfile_lost := true; q_parent_evidence_raw_path := true; q_worker_swallows_errors := true |}
+       (Some 3) 16 [5;3;1;0;2;4] [0;1;2;3;4;5] = Some (map ex_v [5;3;1;0;2;4] ++ map ex_dup [0;1;2;3;4;5])
+  /\ seq_run nat nat (fun f => Some [ex_v f]) (fun f => f) (map ex_dup) [0;1;2;3;4;5]
+     = Some (map ex_v [0;1;2;3;4;5] ++ map ex_dup [0;1;2;3;4;5]).
 Proof. vm_compute. repeat split; reflexivity. Qed.
